@@ -374,13 +374,14 @@ class AsyncHTTP2Connection(AsyncConnectionInterface):
             # pending for the stream ID we're attempting to send on.
             if stream_id is None or not self._events.get(stream_id):
                 events = await self._read_incoming_data(request)
+
+                # Hand the events of this read to their streams before anything
+                # is awaited: if this request is cancelled while a settings change
+                # is being applied, the other streams must not lose their frames.
+                settings_events = []
                 for event in events:
                     if isinstance(event, h2.events.RemoteSettingsChanged):
-                        async with Trace(
-                            "receive_remote_settings", logger, request
-                        ) as trace:
-                            await self._receive_remote_settings_change(event)
-                            trace.return_value = event
+                        settings_events.append(event)
 
                     elif isinstance(
                         event,
@@ -396,6 +397,13 @@ class AsyncHTTP2Connection(AsyncConnectionInterface):
 
                     elif isinstance(event, h2.events.ConnectionTerminated):
                         self._connection_terminated = event
+
+                for event in settings_events:
+                    async with Trace(
+                        "receive_remote_settings", logger, request
+                    ) as trace:
+                        await self._receive_remote_settings_change(event)
+                        trace.return_value = event
 
         await self._write_outgoing_data(request)
 
